@@ -10,6 +10,8 @@ All specs are written from the property statements, not from the patterns.
 M = '‸'
 ANY = r'(?:.|\n)*'
 NAME = r'[a-zA-Z_][a-zA-Z0-9_]*'
+IDENT = r'[_a-zA-Z][_a-zA-Z0-9]*'
+OCTET = r'(?:[0-9]|[0-9][0-9]|[01][0-9][0-9]|2[0-4][0-9]|25[0-5])'
 
 RX = [
     {'id': 'rx:substitution._name_re',
@@ -20,5 +22,38 @@ RX = [
           'spec': r'[a-zA-Z_]' + ANY},
          {'label': 'end-is-maximal-munch', 'kind': 'end', 'carries': 'C04',
           'spec': NAME + M + r'(?:[^a-zA-Z0-9_]' + ANY + r')?'},
+     ]},
+    # ---- C09: regular-expression datatypes ("prefix match, then compare with the whole string") ----
+    {'id': 'rx:datatypes.basic-key', 'source': 'ZConfig.datatypes:BasicKeyConversion()._rx',
+     'checks': [
+         {'label': 'accepts-exactly', 'kind': 'match-then-whole', 'carries': 'C09',
+          'spec': r'[a-zA-Z][-._a-zA-Z0-9]*'},       # a letter followed by letters, digits, '-', '.', '_'
+         {'label': 'first-match-equals-full-language', 'kind': 'first-equals-full', 'carries': 'C09'},
+     ]},
+    {'id': 'rx:datatypes.identifier', 'source': 'ZConfig.datatypes:IdentifierConversion()._rx',
+     'checks': [
+         {'label': 'accepts-exactly', 'kind': 'match-then-whole', 'carries': 'C09', 'spec': IDENT},
+         {'label': 'first-match-equals-full-language', 'kind': 'first-equals-full', 'carries': 'C09'},
+     ]},
+    {'id': 'rx:datatypes.dotted-name', 'source': 'ZConfig.datatypes:DottedNameConversion()._rx',
+     'checks': [
+         {'label': 'accepts-exactly', 'kind': 'match-then-whole', 'carries': 'C09',
+          'spec': IDENT + r'(?:\.' + IDENT + r')*'},
+         {'label': 'first-match-equals-full-language', 'kind': 'first-equals-full', 'carries': 'C09'},
+     ]},
+    {'id': 'rx:datatypes.dotted-suffix', 'source': 'ZConfig.datatypes:DottedNameSuffixConversion()._rx',
+     'checks': [
+         {'label': 'accepts-exactly', 'kind': 'match-then-whole', 'carries': 'C09',
+          'spec': r'\.?' + IDENT + r'(?:\.' + IDENT + r')*'},
+         {'label': 'first-match-equals-full-language', 'kind': 'first-equals-full', 'carries': 'C09'},
+     ]},
+    {'id': 'rx:datatypes.ipaddr-or-hostname', 'source': 'ZConfig.datatypes:IpaddrOrHostname()._rx',
+     'checks': [
+         # the pattern stage must let through: dotted-quad IPv4, host names, and every candidate
+         # IPv6 text (hex digits, ':' and '.', at least one colon) - inet_pton decides those afterwards
+         {'label': 'accepts-exactly', 'kind': 'match-then-whole', 'carries': 'C09',
+          'spec': r'(?:' + OCTET + r'\.){3}' + OCTET + r'|[A-Za-z_](?:[-A-Za-z0-9_.]*[-A-Za-z0-9_])?'
+                  r'|[0-9A-Fa-f:.]+:[0-9A-Fa-f:.]*'},
+         {'label': 'first-match-equals-full-language', 'kind': 'first-equals-full', 'carries': 'C09'},
      ]},
 ]
